@@ -36,6 +36,8 @@ def key_linearity_obligations(rep):
 def run(rep, tier):
     kernels.oracle_self_check(rep)
     kernels.run_generators(rep, ["measure_vector", "measure_matrix"])
+    from vf.pyvc import tensors
+    tensors.run_tensor_contracts(rep, ["C04"])
     kernels.run_scope(rep, B.STATE_FILES)
     key_linearity_obligations(rep)
     B.run_b(rep, morecells.measure_cells(tier, common.seed()), ["C04"], explore=True, tier=tier)
